@@ -59,7 +59,8 @@ class C03(Check):
               'decided_before_eof', 'raw_result', 'multiple_formats_error',
               'no_allowed_match_error', 'fat_lookalike',
               'late_nonascii_text', 'expected_outside_allowed',
-              'cut_off_by_expected_inspector', 'tail_signature')
+              'cut_off_by_expected_inspector', 'tail_signature',
+              'overlay_of_individually_detected_signatures')
 
     def gen(self, st, tier, index, total):
         rng = st('content')
@@ -357,6 +358,30 @@ class C03(Check):
                 if y not in finals:
                     viol('present_format_not_listed', missing=y,
                          formats=finals)
+        # 7. metamorphic form of "two or more matching formats always raise"
+        # that needs no model of what matches: if every signature of an
+        # overlay, planted alone on the same background, makes THIS tree
+        # report that very format, then the overlay of all of them must be
+        # refused
+        p0 = case['content'].get('p') or {}
+        sigs = list(p0.get('sigs') or [])
+        if (case['content'].get('layout') == 'overlay' and len(sigs) >= 2 and
+                not aborted and not expected and
+                not case['content'].get('mut') and
+                case['content'].get('trunc') is None and
+                all(x in aset for x in sigs) and
+                isinstance(final, str) and not final.startswith('EXC:')):
+            singles = []
+            for x in sigs:
+                rec1 = copy.deepcopy(case['content'])
+                rec1['p']['sigs'] = [x]
+                d1, _i1 = F.build(rec1)
+                singles.append(self._detect_plain(d1, case, allowed))
+            if singles == sigs:
+                bump(pr, 'overlay_of_individually_detected_signatures')
+                if final != 'ImageFormatError':
+                    viol('individually_detected_formats_not_refused',
+                         signatures=sigs, result=final, length=n)
         nclass = sum(1 for d in (6, 64, 512, 592, 34 * 1024, 256 * 1024)
                      if n >= d)
         stats['distinct'].append(core._h64(core.canon(
@@ -371,6 +396,33 @@ class C03(Check):
             uniq.append(v)
         return {'violations': uniq[:3], 'digest': log.digest(),
                 'stats': stats}
+
+    def _detect_plain(self, data, case, allowed):
+        """Final answer for `data` read the same way as the case's main
+        session (no sampling, no expected format)."""
+        m = imgsim.fi()
+        if case['via'] == 'detect':
+            def sim_open(p, mode='r', *a, **k):
+                return SimFile(data, short=case.get('short'))
+            m.open = sim_open
+            try:
+                try:
+                    insp = m.detect_file_format('/sim/image')
+                    return None if insp is None else str(insp)
+                except m.ImageFormatError:
+                    return 'ImageFormatError'
+                except Exception as e:
+                    return core.exc_name(e)
+            finally:
+                del m.open
+        sizes = streams.expand(case['rle'])
+        pers = 'file' if case['via'] == 'wfile' else 'iter'
+        r = imgsim.drive_wrapper(data, sizes, pers, order=case.get('order'),
+                                 allowed=allowed, watch_regions=False,
+                                 ask=case.get('ask'))
+        if r['error']:
+            return 'EXC:' + str(r['error'][1])
+        return r['format']
 
     def finding(self, case, v):
         return None
